@@ -258,6 +258,7 @@ func seqC05(c *Ctx, g *Group) {
 		}
 		withIdx := func(i string) func(*mWire) { return func(w *mWire) { w.ACSIndex = i } }
 		variants = append(variants, withIdx("0"), withIdx("1"), withIdx("2"), withIdx("9"))
+		names := []string{"valid", "unknown issuer", "wrong version", "wrong destination", "stale", "other ID", "index 0", "index 1", "index 2", "index 9"}
 		i1 := r.Intn(len(variants))
 		i2 := (i1 + 1 + r.Intn(len(variants)-1)) % len(variants) // a different one
 		w1, w2 := base, base
@@ -316,7 +317,7 @@ func seqC05(c *Ctx, g *Group) {
 		}{{w1, v1, info1, h1}, {w2, v2, info2, h2}, {w3, v3, info3, h3}, {w4, v4, info4, h4}} {
 			c.Count("history/held-requests/" + method)
 			c.Add(g, &Case{
-				Key:   map[string]string{"class": "history", "history": "two requests alive at once", "which": fmt.Sprint(i + 1), "binding": method},
+				Key:   map[string]string{"class": "history", "history": "two requests alive at once", "which": fmt.Sprint(i + 1), "binding": method, "request_1": names[i1], "request_2": names[i2]},
 				Input: map[string]any{"request_1_xml": w1.xml(), "request_2_xml": w2.xml(), "order": "decode 1, decode 2, validate 1, validate 2", "this_case_is_request": i + 1},
 				Obs:   map[string]any{"validate": x.v, "detail": x.info, "serve_sso_kind": x.h.Kind, "form_action": x.h.Action},
 				Term: fmt.Sprintf("{| c5_cfg := %s; c5_reg := %s; c5_now := %s; c5_req := (Decoded %s); c5_obs := %s; c5_http := %s |}",
